@@ -11,7 +11,7 @@ func init() {
 	register(&propDef{
 		id: "C27", title: "Remote tells keep order and are never silently dropped",
 		technique: "who-may-receive on the coalescer channel (single writer), CFG ordering inside the writer loop and its closures (error hand-off before clear; exit only after an empty observation of the channel), loop-shape rule on the server batch loop",
-		explanation: "Decides: (1) single writer: c.in is received only inside coalescer.run, which is started exactly once per coalescer (one 'go c.run()' in newCoalescer, nowhere else); the batch is built only by append in receive order and never reordered; (2) a failed flush hands a copy of the whole batch to the error handler before the batch is cleared; (3) close: on the done branch the writer returns only after a drain that observed the channel empty (every return of the branch is reached over len(batch)==0 directly after drainReady, and every flush in the branch is followed by another drain); drainReady stops only on the select-default (empty) edge or at the batch bound; (4) submit returns errCoalescerClosed on the done edge and its sends are the only sends on c.in; (5) server: the batch is delivered in slice order, one deliverRemoteTellMessage per non-nil element, with no early exit.",
+		explanation: "Decides: (1) single writer: c.in is received only inside coalescer.run, which is started exactly once per coalescer (one 'go c.run()' in newCoalescer, nowhere else); the batch is built only by append in receive order and never reordered; (2) a failed flush hands a copy of the whole batch to the error handler before the batch is cleared; (3) close: on the done branch the writer returns only after a drain that observed the channel empty (every return of the branch is reached over len(batch)==0 directly after drainReady, and every flush in the branch is followed by another drain); drainReady stops only on the select-default (empty) edge or at the batch bound; (4) submit returns errCoalescerClosed on the done edge and its sends are the only sends on c.in; (5) server: the batch is delivered in slice order, one deliverRemoteTellMessage per non-nil element, with no early exit. Added after the probe round: after the send, flush ends without the error handler only when there is no error or no handler; submit returns nil only after a send and polls the closed signal before its first enqueue; the message received by the main select enters the batch before any further drain; the handler never receives the reused batch slice (or a re-slice of it).",
 		assumptions: []string{"a submit racing close (send accepted after the writer's last empty observation) is not decided", "order on the wire is the order of the batch slice (protobuf repeated field)"},
 		minObl:     15,
 		run:        runC27,
